@@ -7,6 +7,7 @@ by the checks of other properties (DESIGN section 13, rounds 6 and 7).  A proper
     us += structure.units()
     r = structure.replay(o, tree)          (first thing in its replay)"""
 import itertools
+from pyvc import driver
 
 
 def unit_s_repeat(eng):
@@ -53,6 +54,15 @@ def replay(o, tree):
     cross-file exports) and, for '.include', on C13's run from another directory"""
     unit = o.get("unit", "")
     kind = (o.get("cfg") or {}).get("kind")
+    if "frame:no-evaluated-value-is-stored-on-the-syntax-tokens" in o.get("label", ""):
+        # a statement compiled once per copy: a value kept on its token is the first copy's
+        progs = [(".link 1000\n.repeat 2 { . = . + 10 }\n", "00" * 16), (".link 1000\n.repeat 2 { .word 177777\n. = . + 2 }\n", "ffff0000ffff0000"),
+                 (".link 1000\ns: .repeat 3 { .ascii \"ab\"<.-s> }\n", "616200616203616206"), (".link 1000\ns: .repeat 3 { .word .-s\n. = . + 2 }\n", "000000000400000008000000"),
+                 (".link 1000\ns: .repeat 2 { .blkb .-s+1\n.byte .-s }\n", "000100000005"), ("s: .repeat 3 { mov #.-s, r0 }\n", "c0150000c0150400c0150800")]
+        res = driver.native([{"kind": "asm", "sources": [p_]} for p_, _ in progs], tree)
+        obs = [[r_["status"], r_.get("code_hex")] for r_ in res]
+        exp = [["ok", e_] for _, e_ in progs]
+        return dict(jobs=[{"kind": "asm", "sources": [p_]} for p_, _ in progs], expected=exp, observed=obs, reproduced=obs != exp)
     r = kernel_replay(o, tree)
     if r is not None:
         return r
